@@ -134,6 +134,18 @@ Definition ops_text : list (string * rd string) :=
                        | Some q => sh_dres (do_dump md (p_ned p) q (p_fmt p))
                        | None => "TRUNCATED" end
             end));
+    (* TimePoint(...) with keyword arguments: year month dom doy week dow h m s zh zm *)
+    ("mk", md <- rMode ;; y <- rOpt rZ ;; mo <- rOpt rZ ;; d <- rOpt rZ ;; doy <- rOpt rZ ;; w <- rOpt rZ ;; dow <- rOpt rZ ;;
+       h <- rOpt rQ ;; mi <- rOpt rQ ;; sec <- rOpt rQ ;; zh <- rOpt rZ ;; zm <- rOpt rZ ;;
+       ret (let intq := fun (o : option Q) => match o with Some x => qis_int x | None => true end in
+            if negb (intq h && intq mi && intq sec) then "UNMODELLED"
+            else sh_pres sh_ptp
+                   (construct md y mo d doy w dow h None mi None sec None
+                              (match zh, zm with
+                               | None, None => None
+                               | Some a, b => Some (a, b)
+                               | None, Some b => Some (0%Z, Some b) end)
+                              false "" 0 "" false)));
     ("tpstr", md <- rMode ;; ned <- rZ ;; p <- rTp ;; ret (sh_dres (do_str md ned p)));
     ("tpdump", md <- rMode ;; ned <- rZ ;; p <- rTp ;; f <- rText ;; ret (sh_dres (do_dump md ned p f)));
     (* str(p) parsed back by a default parser with the same number of expanded digits *)
